@@ -25,7 +25,13 @@ HARNESS = os.path.join(VERIF, "harness")
 EVIDENCE = os.path.join(VERIF, "evidence")
 REPLAYS = os.path.join(VERIF, "replays")
 CORPUS = os.path.join(VERIF, "corpus")
-MODEL_EXE = os.path.join(LEAN, ".lake", "build", "bin", "celer_model")
+
+
+def model_exe(prop):
+    """compiled line-protocol driver of the Lean model for one property"""
+    return os.path.join(LEAN, ".lake", "build", "bin", "celer_model_" + prop.lower())
+
+
 CONDA = "/root/miniconda"
 HOOK_DEFINE = "CELERITAS_VERIF_HOOKS"
 
@@ -228,6 +234,8 @@ def lean_build(targets, timeout=3600):
     t0 = time.time()
     with Lock("lean"):
         changed, terr = translate.run()
+        import gen_root
+        gen_root.main()
         rc, out = sh(["lake", "build"] + targets, cwd=LEAN, timeout=timeout)
     failed = sorted(set(re.findall(r"^error: (\S+\.lean):(\d+):\d+:", out, re.M)))
     bad_mods = sorted(set(re.findall(r"^- (CelerVerif\.\S+|Driver\.\S+)", out, re.M)))
